@@ -5,9 +5,9 @@ package main
 // the confirmed bounded waits whose premise is re-checked.
 
 import (
-	"os"
-	"go/types"
 	"fmt"
+	"go/types"
+	"os"
 	"strings"
 
 	"golang.org/x/tools/go/ssa"
@@ -201,16 +201,17 @@ func (p *Prog) chanNameThroughParams(fn *ssa.Function, v ssa.Value) string {
 
 // closeOnce (typestate open -> closed, never closed twice: a second close
 // panics). Every close(ch) site is justified by one of
-//  (a) it runs inside the function handed to sync.Once.Do;
-//  (b) a receive test on the same channel dominates it in the same function
-//      and its "already closed" outcome cannot reach the close (re-entry
-//      guard of a one-shot API such as Serve / Close);
-//  (c) every channel it may close was created by the same known top-level
-//      function (the closer is that function, its closures, or a goroutine
-//      it starts): one close per creation;
-//  (d) it is in the body of a per-object goroutine (`go x.run()` started by
-//      x.start()), and start() is only called on an object created in the
-//      calling function or inside a region covered by a guard of kind (b).
+//
+//	(a) it runs inside the function handed to sync.Once.Do;
+//	(b) a receive test on the same channel dominates it in the same function
+//	    and its "already closed" outcome cannot reach the close (re-entry
+//	    guard of a one-shot API such as Serve / Close);
+//	(c) every channel it may close was created by the same known top-level
+//	    function (the closer is that function, its closures, or a goroutine
+//	    it starts): one close per creation;
+//	(d) it is in the body of a per-object goroutine (`go x.run()` started by
+//	    x.start()), and start() is only called on an object created in the
+//	    calling function or inside a region covered by a guard of kind (b).
 func (c *Check) closeOnce(rule string) {
 	p := c.P
 	cf := p.chanFlow()
@@ -506,7 +507,6 @@ func sameAddr(a, b ssa.Value) bool {
 	}
 	return false
 }
-
 
 func topLevelOf(fn *ssa.Function) *ssa.Function {
 	for fn.Parent() != nil {
